@@ -27,8 +27,20 @@ use crate::util;
 pub const HOST: &str = "rrdp.c25.example";
 pub const BASE: &str = "https://rrdp.c25.example/r";
 
-pub fn obj_uri(i: usize) -> String { format!("rsync://{HOST}/m/o{i}.bin") }
-pub const CONTENTS: [&[u8]; 2] = [b"content-x", b"content-y-longer"];
+thread_local! {
+    /// C24 renames objects 2 and 3 so that they share an archive bucket
+    /// with object 0 (the archive's hash key is random per file).
+    pub static NAME_OVERRIDE: RefCell<BTreeMap<usize, String>> = const { RefCell::new(BTreeMap::new()) };
+}
+
+pub fn obj_uri(i: usize) -> String {
+    if let Some(name) = NAME_OVERRIDE.with(|n| n.borrow().get(&i).cloned()) { return name }
+    format!("rsync://{HOST}/m/o{i}.bin")
+}
+pub fn candidate_uri(k: usize) -> String { format!("rsync://{HOST}/m/o{k}c.bin") }
+
+/// Contents 0 and 1 occupy one archive page, content 2 three.
+pub const CONTENTS: [&[u8]; 3] = [b"content-x", b"content-y-longer", &[b'z'; 600]];
 
 type Objects = BTreeMap<String, Vec<u8>>;
 pub type Truth = BTreeMap<(String, u64), Objects>;
@@ -41,6 +53,9 @@ pub enum SrvOp { Set(usize, Option<usize>), NewSession, DropDeltas }
 #[derive(Clone, Copy, Debug, Eq, PartialEq, Hash, Ord, PartialOrd)]
 pub enum Mode {
     Faithful,
+    /// faithful, but the server knows no entity tags: it sends
+    /// Last-Modified and honours If-Modified-Since
+    FaithfulLastModified,
     Notify404, Notify500, NotifyGarbage, NotifyUnreachable, NotifyOtherOrigin,
     NotModifiedLie,
     ListDropNewest, ListDropOldest, ListGap, ListDuplicate, ListHashMutated,
@@ -55,7 +70,7 @@ pub enum Mode {
 
 pub fn modes() -> Vec<Mode> {
     use Mode::*;
-    let mut res = vec![Faithful, Notify404, Notify500, NotifyGarbage, NotifyUnreachable,
+    let mut res = vec![Faithful, FaithfulLastModified, Notify404, Notify500, NotifyGarbage, NotifyUnreachable,
         NotifyOtherOrigin, NotModifiedLie, ListDropNewest, ListDropOldest, ListGap,
         ListDuplicate, ListHashMutated];
     for snap in [true, false] {
@@ -82,7 +97,9 @@ pub enum Event { Srv(SrvOp), Update(Mode) }
 /// Everything the transport serves for one update attempt.
 struct Docs {
     notify: Option<(u16, Vec<u8>)>,     // None: unreachable
-    etag: String,
+    etag: Option<String>,
+    /// Some: Last-Modified (seconds) sent and If-Modified-Since honoured
+    last_modified: Option<i64>,
     honour_etag: bool,
     always_304: bool,
     files: BTreeMap<String, Vec<u8>>,   // uri -> body (missing: 404)
@@ -216,7 +233,23 @@ fn build_docs(server: &Server, mode: Mode) -> Docs {
         NotifyUnreachable => None,
         _ => Some((200, notification.into_bytes())),
     };
-    Docs { notify, etag: server.etag(), honour_etag: true, always_304: mode == NotModifiedLie, files }
+    let lm_only = mode == FaithfulLastModified;
+    Docs {
+        notify,
+        etag: if lm_only { None } else { Some(server.etag()) },
+        last_modified: if lm_only { Some(server_last_modified(server)) } else { None },
+        honour_etag: !lm_only, always_304: mode == NotModifiedLie, files
+    }
+}
+
+/// The time the server's content last changed, on the server's own clock
+/// (which runs years behind the client's: only the server may compare it).
+pub fn server_last_modified(server: &Server) -> i64 {
+    1_600_000_000 + server.session_counter as i64 * 100_000 + server.serial as i64
+}
+
+fn http_date(ts: i64) -> String {
+    chrono::DateTime::<chrono::Utc>::from_timestamp(ts, 0).unwrap().format("%a, %d %b %Y %H:%M:%S GMT").to_string()
 }
 
 thread_local! {
@@ -227,17 +260,26 @@ thread_local! {
     static REQUESTS: RefCell<Vec<String>> = const { RefCell::new(Vec::new()) };
 }
 
-fn answer(uri: &str, etag: Option<&[u8]>) -> Option<HttpAnswer> {
+fn answer(uri: &str, etag: Option<&[u8]>, lm: Option<i64>) -> Option<HttpAnswer> {
     REQUESTS.with(|r| r.borrow_mut().push(uri.to_string()));
     DOCS.with(|d| {
         let d = d.borrow();
         let d = d.as_ref()?;
         if uri.ends_with("/notification.xml") {
             let Some((status, body)) = d.notify.as_ref() else { return Some(HttpAnswer::Unreachable) };
-            if *status == 200 && ((d.honour_etag && etag == Some(d.etag.as_bytes())) || (d.always_304 && etag.is_some())) {
+            if let Some(server_lm) = d.last_modified {
+                // RFC 9110 13.1.3: not modified since the given date
+                let headers = vec![("Last-Modified".to_string(), http_date(server_lm))];
+                if *status == 200 && lm.map(|lm| server_lm <= lm).unwrap_or(false) {
+                    return Some(HttpAnswer::Response(resp(304, headers, Vec::new())))
+                }
+                return Some(HttpAnswer::Response(resp(*status, headers, body.clone())))
+            }
+            let own = d.etag.clone().unwrap_or_default();
+            if *status == 200 && ((d.honour_etag && etag == Some(own.as_bytes())) || (d.always_304 && etag.is_some())) {
                 return Some(HttpAnswer::Response(resp(304, vec![("ETag".into(), String::from_utf8_lossy(etag.unwrap()).into_owned())], Vec::new())))
             }
-            return Some(HttpAnswer::Response(resp(*status, vec![("ETag".into(), d.etag.clone())], body.clone())))
+            return Some(HttpAnswer::Response(resp(*status, vec![("ETag".into(), own)], body.clone())))
         }
         match d.files.get(uri) {
             Some(body) => Some(HttpAnswer::Response(resp(200, vec![], body.clone()))),
@@ -248,7 +290,7 @@ fn answer(uri: &str, etag: Option<&[u8]>) -> Option<HttpAnswer> {
 
 pub fn ensure_transport() -> &'static rrdpsrv::HostGuard {
     static G: std::sync::OnceLock<rrdpsrv::HostGuard> = std::sync::OnceLock::new();
-    G.get_or_init(|| rrdpsrv::serve_host(HOST, Arc::new(|uri, etag, _lm| answer(uri, etag))))
+    G.get_or_init(|| rrdpsrv::serve_host(HOST, Arc::new(|uri, etag, lm| answer(uri, etag, lm))))
 }
 
 //------------ Client side ---------------------------------------------------
@@ -285,7 +327,7 @@ impl Worker {
 }
 
 #[derive(Clone, Debug, Eq, PartialEq)]
-pub struct Local { pub session: String, pub serial: u64, pub objects: Objects, pub remembered: BTreeMap<u64, String> }
+pub struct Local { pub session: String, pub serial: u64, pub objects: Objects, pub remembered: BTreeMap<u64, String>, pub etag: Option<Vec<u8>>, pub last_modified: Option<i64> }
 
 /// Reads the local copy through the real archive code.
 pub fn read_local(path: &PathBuf) -> Result<Option<Local>, String> {
@@ -300,6 +342,7 @@ pub fn read_local(path: &PathBuf) -> Result<Option<Local>, String> {
     Ok(Some(Local {
         session: state.session.to_string(), serial: state.serial, objects,
         remembered: state.delta_state.iter().map(|(k, v)| (*k, hex(v.as_slice()))).collect(),
+        etag: state.etag.as_ref().map(|e| e.to_vec()), last_modified: state.last_modified_ts,
     }))
 }
 
@@ -324,7 +367,7 @@ pub fn client_update(
     let mut via_repo: Option<Objects> = None;
     if let Ok(RrdpLoadResult::Updated(repo)) = &res {
         let mut objs = Objects::new();
-        for i in 0..3 {
+        for i in 0..4 {
             let u = uri::Rsync::from_str(&obj_uri(i)).unwrap();
             match repo.load_object(&u) {
                 Ok(Some(d)) => { objs.insert(obj_uri(i), d.to_vec()); }
@@ -366,6 +409,36 @@ pub fn client_update(
     // not updated: whatever is on disk must still be readable or gone
     let local = match local { Ok(l) => l, Err(_) => None };
     Ok(Outcome { result, requests, local })
+}
+
+fn own_objects(l: &Local) -> Objects {
+    l.objects.iter().filter(|(k, _)| k.contains("/m/o")).map(|(k, v)| (k.clone(), v.clone())).collect()
+}
+
+/// Does the local copy equal the version it claims to be?
+pub fn is_clean(local: &Option<Local>, truth: &Truth) -> bool {
+    local.as_ref().map(|l| truth.get(&(l.session.clone(), l.serial)) == Some(&own_objects(l))).unwrap_or(true)
+}
+
+/// The second half of the property for a protocol-conforming server: when
+/// every answer was faithful and nothing earlier left the copy divergent,
+/// the update neither fails nor keeps an older version: the copy is the
+/// server's current snapshot.
+pub fn check_faithful(server: &Server, mode: Mode, clean_before: bool, o: &Outcome) -> Result<(), (String, String)> {
+    if !matches!(mode, Mode::Faithful | Mode::FaithfulLastModified) || !clean_before { return Ok(()) }
+    if o.result != "updated" && o.result != "current" {
+        return Err(("faithful-server-refused".into(), format!("every answer was faithful, yet the update reported {}", o.result)))
+    }
+    let in_sync = o.local.as_ref().map(|l| l.session == server.session && l.serial == server.serial && own_objects(l) == server.objects).unwrap_or(false);
+    if !in_sync {
+        return Err(("stale-after-faithful-update".into(), format!(
+            "every answer was faithful and the update reported {}, yet the local copy is {} while the server is at serial {} with {}",
+            o.result,
+            o.local.as_ref().map(|l| format!("serial {} {}", l.serial, fmt_objs(&own_objects(l)))).unwrap_or("absent".into()),
+            server.serial, fmt_objs(&server.objects)
+        )))
+    }
+    Ok(())
 }
 
 pub fn fmt_objs(o: &Objects) -> String {
@@ -425,7 +498,11 @@ fn canon(s: &State) -> String {
                 let mine: Objects = l.objects.iter().filter(|(k, _)| k.contains("/m/o")).map(|(k, v)| (k.clone(), v.clone())).collect();
                 *t == mine
             }).unwrap_or(false);
-            format!("same={same} diff={diff} objs={} remembered={} consistent={consistent} true={matches_truth}",
+            // validators: which the copy holds, and whether the server
+            // (in the mode that looks at them) would answer Not Modified
+            let etag = match &l.etag { None => "none", Some(e) if e[..] == *s.server.etag().as_bytes() => "current", Some(_) => "other" };
+            let lm = match l.last_modified { None => "none", Some(t) if t >= server_last_modified(&s.server) => "current", Some(_) => "older" };
+            format!("same={same} diff={diff} objs={} remembered={} consistent={consistent} true={matches_truth} etag={etag} lm={lm}",
                 fmt_objs(&l.objects), l.remembered.len().min(RETAIN))
         }
     };
@@ -475,8 +552,11 @@ fn expand(scratch: &PathBuf, st: &State) -> Expanded {
         for mode in modes() {
             w.install(&st.archive);
             ex.transitions += 1;
-            let r = util::catch(|| client_update(w, &st.server, &st.truth, mode))
-                .unwrap_or_else(|p| Err(("panic".into(), p)));
+            let r = util::catch(|| {
+                let o = client_update(w, &st.server, &st.truth, mode)?;
+                check_faithful(&st.server, mode, st.poisoned_by.is_none(), &o)?;
+                Ok(o)
+            }).unwrap_or_else(|p| Err(("panic".into(), p)));
             let mut hist = st.hist.clone();
             hist.push(Event::Update(mode));
             match r {
@@ -486,10 +566,7 @@ fn expand(scratch: &PathBuf, st: &State) -> Expanded {
                     let mut s = State { archive, local: o.local, server: st.server.clone(), truth: st.truth.clone(), hist, poisoned_by: st.poisoned_by };
                     if s.archive.is_none() { s.local = None }
                     // does the local copy still equal the version it claims to be?
-                    let clean = s.local.as_ref().map(|l| {
-                        let mine: Objects = l.objects.iter().filter(|(k, _)| k.contains("/m/o")).map(|(k, v)| (k.clone(), v.clone())).collect();
-                        s.truth.get(&(l.session.clone(), l.serial)) == Some(&mine)
-                    }).unwrap_or(true);
+                    let clean = is_clean(&s.local, &s.truth);
                     if clean { s.poisoned_by = None } else if s.poisoned_by.is_none() { s.poisoned_by = Some(mode) }
                     ex.succ.push(s);
                 }
@@ -510,7 +587,7 @@ fn expand(scratch: &PathBuf, st: &State) -> Expanded {
 fn mode_class(m: Mode) -> &'static str {
     use Mode::*;
     match m {
-        Faithful => "faithful",
+        Faithful | FaithfulLastModified => "faithful",
         Notify404 | Notify500 | NotifyGarbage | NotifyUnreachable | NotifyOtherOrigin | NotModifiedLie => "notify-fault",
         ListDropNewest | ListDropOldest | ListGap | ListDuplicate | ListHashMutated => "list-fault",
         DeltaWrongHash(_) | DeltaWrongSession(_) | DeltaWrongSerial(_) | DeltaRepeatedObject(_) | DeltaHashPrecondition(_) | DeltaUnavailable(_) | DeltaReplaced(_) => "delta-fault",
@@ -540,8 +617,11 @@ fn build_root(scratch: &PathBuf, events: &[Event]) -> Result<State, (String, Str
                 Event::Update(mode) => {
                     w.install(&st.archive);
                     let o = client_update(w, &st.server, &st.truth, *mode)?;
+                    check_faithful(&st.server, *mode, st.poisoned_by.is_none(), &o)?;
                     st.archive = w.read_back();
                     st.local = o.local;
+                    if st.archive.is_none() { st.local = None }
+                    if is_clean(&st.local, &st.truth) { st.poisoned_by = None } else if st.poisoned_by.is_none() { st.poisoned_by = Some(*mode) }
                 }
             }
             st.hist.push(*e);
@@ -635,6 +715,7 @@ pub fn replay_events(scratch: &PathBuf, events: &[Event]) -> Result<(), (String,
     let (mut server, mut truth) = new_server();
     with_worker(scratch, |w| {
         let mut archive: Option<Vec<u8>> = None;
+        let mut clean = true;
         for e in events {
             match e {
                 Event::Srv(op) => { apply_srv(&mut server, &mut truth, *op); println!("{e:?}: server at serial {} {}", server.serial, fmt_objs(&server.objects)); }
@@ -642,7 +723,10 @@ pub fn replay_events(scratch: &PathBuf, events: &[Event]) -> Result<(), (String,
                     w.install(&archive);
                     let o = client_update(w, &server, &truth, *mode)?;
                     println!("{e:?}: {} local {:?} requests {:?}", o.result, o.local.as_ref().map(|l| (l.serial, fmt_objs(&l.objects))), o.requests);
+                    check_faithful(&server, *mode, clean, &o)?;
                     archive = w.read_back();
+                    let local = if archive.is_none() { None } else { o.local };
+                    clean = is_clean(&local, &truth);
                 }
             }
         }
